@@ -21,11 +21,14 @@ EXPLANATION = (
 
 def run(tier: str) -> Check:
     check = Check("C04", tier, EXPLANATION)
-    check.rules = ["SPEC-live(T)", "K2(trivia)", "TRIVIA", "RULE-ATOM", "ATOM", "SHAPE", "TERM(no trivia)", "UNROLLED", "R1", "R2"]
+    check.rules = ["SPEC-live(T)", "K2(trivia)", "TRIVIA", "RULE-ATOM", "ATOM", "SHAPE", "TERM(no trivia)", "UNROLLED", "R1", "R2", "NAME-COLLISION"]
     check.assumptions = [
         "trivia rules do not use the user stack",
         "which pairs pest hides under @ in every nesting needs the dynamic atomicity of the callee: only the shape-insensitivity necessary condition is decided",
         "consumption by the trivia rules themselves is covered by the operator induction, not separately",
     ]
-    fill(check, tier, floors={"trivia_paths": 30, "rule_paths": 200, "trivia_skeleton_variants": 5, "skeleton_paths": 100})
+    repo, _ = fill(check, tier, floors={"trivia_paths": 30, "rule_paths": 200, "trivia_skeleton_variants": 5, "skeleton_paths": 100})
+    from .. import gencheck
+
+    gencheck.skip_namespace(check, repo)
     return check
